@@ -89,9 +89,9 @@ def _mkq(n):
 def _mkc(n):
     from pysym.api import BoolDom, IntDom
     return Harness(f"H18c-n{n}", h18c_reader_output,
-                   dict(s=StrDom(n), low=IntDom(0, 999), op=IntDom(1, 12), fid=IntDom(1, 40), wrap=BoolDom()),
+                   lambda tier: dict(s=StrDom(n), low=IntDom(0, 999), op=IntDom(1, 12), fid=IntDom(1, 3 if tier == "quick" else 40), wrap=BoolDom()),
                    bounds=f"string literal of {n} arbitrary Unicode characters, integer literal 0..999, every binary operator, "
-                          "function ids 1..40, with/without an enclosing function call; rendered by the real formula handlers",
+                          "function ids 1..3 (quick) / 1..40 (thorough), with/without an enclosing function call; rendered by the real formula handlers",
                    stubs=["formula nodes = attribute bags (as C08)"])
 
 
